@@ -1,6 +1,7 @@
 import CookModel.Lemmas.Lexer
 import CookModel.Lemmas.Text
 import CookModel.Lemmas.LexLaws
+import CookModel.Lemmas.Blocks
 /-
   C04  Every reported source location is in bounds, on char boundaries, faithful.
 
@@ -92,5 +93,57 @@ example : ¬ KindText toyCharSpec .colon [';'] := by
   simp only [List.cons.injEq, and_true] at h1
   subst h1
   revert h2; decide
+/-- Front matter split: when `parse_frontmatter` succeeds the input is
+    `pre ++ yaml ++ mid ++ cook` (`pre` = blank lines and the opening fence line, `mid` = the closing
+    fence line), `yaml_offset` is the byte length of `pre` and `cooklang_offset` the byte length of
+    everything before the body.  So both offsets are char boundaries of the input and the two texts
+    are the input slices at those offsets. -/
+theorem C04_frontmatter_offsets (cs : CharSpec) (s : List Char) (fm : FrontMatter)
+    (h : parseFrontmatter cs s = some fm) :
+    ∃ pre mid, s = pre ++ fm.yamlText ++ mid ++ fm.cookText ∧
+      fm.yamlOffset = utf8Len pre ∧ fm.cookOffset = utf8Len (pre ++ fm.yamlText ++ mid) :=
+  blocks_frontmatter_offsets cs s fm h
+
+/-- the YAML text handed to the front-matter event is the input slice at its offset -/
+theorem C04_frontmatter_yaml_slice (cs : CharSpec) (s : List Char) (fm : FrontMatter)
+    (h : parseFrontmatter cs s = some fm) : SliceAt 0 s fm.yamlOffset fm.yamlText := by
+  obtain ⟨pre, mid, e, o1, _⟩ := blocks_frontmatter_offsets cs s fm h
+  exact ⟨pre, mid ++ fm.cookText, by rw [e]; simp, by rw [o1]; simp⟩
+
+/-- With front matter, the token stream `PullParser` works on (the body lexed at
+    `cooklang_offset`) tiles the tail of the WHOLE input: every token is a run of whole characters
+    of the input starting at the char boundary `token.start`, the first token starts at
+    `cooklang_offset` and the last one ends at `len(input)`. -/
+theorem C04_frontmatter_tokens_tile_tail (cs : CharSpec) (s : List Char) (fm : FrontMatter)
+    (h : parseFrontmatter cs s = some fm) :
+    Chain fm.cookOffset (lexFrom cs fm.cookOffset fm.cookText) ∧
+    (∀ t ∈ lexFrom cs fm.cookOffset fm.cookText, SliceAt 0 s t.start t.text) ∧
+    (∀ t, (lexFrom cs fm.cookOffset fm.cookText).getLast? = some t → t.stop = utf8Len s) := by
+  obtain ⟨pre, mid, e, _, o2⟩ := blocks_frontmatter_offsets cs s fm h
+  refine ⟨lexFrom_chain _ _ _, ?_, ?_⟩
+  · intro t ht
+    obtain ⟨p, q, e1, e2⟩ := lexFrom_boundary cs fm.cookOffset fm.cookText t ht
+    refine ⟨pre ++ fm.yamlText ++ mid ++ p, q, ?_, ?_⟩
+    · rw [e]; conv => lhs; rw [e1]
+      simp [List.append_assoc]
+    · rw [e2, o2]; simp only [utf8Len_append]; omega
+  · intro t ht
+    have := C04_tokens_end cs fm.cookOffset fm.cookText t ht
+    rw [this, o2]
+    conv => rhs; rw [e]
+    simp only [utf8Len_append]
+
+/-- The blocks of the splitter are in source order and disjoint: every token of an earlier block
+    ends at or before the start of every token of a later block (the part of `events_ordered`
+    that concerns different blocks: all spans of a block's events are built from its tokens). -/
+theorem C04_blocks_in_source_order (off : Nat) (ts : List Tok) (h : Chain off ts) (f : Nat) :
+    (allBlocks f ts).Pairwise (fun b1 b2 => ∀ u ∈ b1, ∀ v ∈ b2, u.stop ≤ v.start) :=
+  blocks_all_ordered f off ts h
+
+/-! non-vacuity: blank line, fence, a YAML line with a two-byte character, fence, body -/
+example :
+    (parseFrontmatter ⟨fun c => c == ' ', fun _ => false, fun _ => true, fun c => c == ' ' || c == '\n', fun _ => true⟩
+        "\n---\né: 1\n--- \nx".toList).map (fun fm => (fm.yamlText, fm.yamlOffset, fm.cookText, fm.cookOffset)) =
+      some ("é: 1\n".toList, 5, ['x'], 16) := by decide
 
 end Cook
